@@ -121,6 +121,8 @@ def analyse(ctx, F, body, MA, FA):
     exits = lib.error_exits(body)
     feas = []
     for e in exits:
+        if e.kind == 'relay':
+            continue      # relays inner error exits, each examined on its own
         if e.kind == 'explicit':
             feas.append(e)
         elif e.src_call is not None and FA.call_infallible(e.src_call):
